@@ -573,6 +573,14 @@ class ConstraintMachine(LoggedMachine):
         self.do({"op": "add", "name": name, "limit": limit, "expr": data.draw(exprs(self.ids())), "reuse_object": reuse, "strict": strict})
 
     @precondition(lambda self: len(self.state.model) >= 1)
+    @rule(data=st.data(), limit=st.sampled_from([5.0, 32.0, 0.0]))
+    def colliding_add_under_warnings_as_errors(self, data, limit):
+        """A name that is already taken, added by a caller who runs with warnings as errors."""
+        self.state.counter += 1
+        name = data.draw(st.sampled_from(sorted(set(self.state.model))))
+        self.do({"op": "add", "name": name, "limit": limit, "expr": data.draw(exprs(self.ids())), "reuse_object": None, "strict": True})
+
+    @precondition(lambda self: len(self.state.model) >= 1)
     @rule(data=st.data(), limit=st.sampled_from([7.0, 99.0]))
     def add_unknown(self, data, limit):
         self.state.counter += 1
